@@ -209,7 +209,12 @@ def c01(tier, seed):
         t6 = session("c01-late-psk", PskMode="only", LatePsk=True, PubLens=[32], InitPads=[False], Variants=["tr"],
                      TrafficMode="short", PatSet=["NN", "XX", "IK", "X1X1"])
         r6 = replay("C01", t6, seed, 1, threads=14)
+        t7 = session("c01-early-split", EarlySplit=True, PubLens=[32], InitPads=[False], TrafficMode="short",
+                     PatSet=["N", "NN", "XX", "IK", "X1X1", "KK"])
+        r7 = replay("C01", t7, seed, 1, threads=14)
     else:
+        t7 = session("c01-early-split", EarlySplit=True, PskMode="single", PubLens=[32], InitPads=[False], TrafficMode="short")
+        r7 = replay("C01", t7, seed, 1, threads=14)
         t4 = r4 = None
         t5 = session("c01-after-failure", FaultBudget=1, FaultKinds=["wbuf", "routbuf", "ralt"], PubLens=[32], InitPads=[False],
                      Variants=["tr"], TrafficMode="short")
@@ -222,7 +227,8 @@ def c01(tier, seed):
         t2 = session("c01-honest-ring", PskMode="all", PubLens=[32])
         r2 = replay("C01", t2, seed, 2, backends="mix", threads=14)
         t3, r3 = odd_names_leg("C01", tier, seed)
-    return merge("model_checking", [x for x in [t, t2, t3, t4, t5, t6] if x], [x for x in [r, r2, r3, r4, r5, r6] if x], RULE_D1 +
+    return merge("model_checking", [x for x in [t, t2, t3, t4, t5, t6, t7] if x], [x for x in [r, r2, r3, r4, r5, r6, r7] if x], RULE_D1 +
+                 "and a run that queries the raw split in the middle of the handshake (a pure query); "
                  "the messages must be the specification's whatever happened before: runs with one failed call (undersized "
                  "buffer, altered message) before each step and its retry, and runs in which a psk is installed by set_psk "
                  "only when it is needed; "
@@ -544,7 +550,15 @@ def c04(tier, seed):
                 ("c04-top", dict(NonceMode="top", MaxSend=2, Depth=5, BadBudget=1, SetBudget=1, SmallBufs=False)),
                 ("c04-rekey", dict(MaxSend=2, Depth=5, BadBudget=1, SetBudget=0, RekeyBudget=2, SmallBufs=False))]
     tl, rl = tlegs("C04", seed, cfgs, per_scn=1 if tier == "quick" else 2)
+    # the transport keys must be the session's whatever was QUERIED on the way: a raw-split query at any earlier point
+    # of the handshake, then the rest of the handshake and traffic in both directions, compared byte for byte
+    t_es = session("c04-early-split", EarlySplit=True, PskMode="single", PubLens=[32], InitPads=[False], TrafficMode="short",
+                   PatSet=(["N", "NN", "XX", "IK", "X1X1"] if tier == "quick" else BASE))
+    tl.append(t_es)
+    rl.append(replay("C04", t_es, seed, 1, threads=14))
     return merge("model_checking", tl, rl, RULE_T +
+                 "one session-model run queries dangerously_get_raw_split() once at any earlier point of the handshake (a pure "
+                 "query: everything after it must be unchanged); "
                  "here: every message of the pool is offered to BOTH endpoints (so: reflection to its own sender, the other "
                  "direction), plus bit flips at both ends and in the middle, truncations (incl. below 16 bytes and to the bare "
                  "tag), extension, garbage of 0/15/16/21/65536 bytes, messages of a donor session with the same long-term "
